@@ -85,6 +85,10 @@ func TestVerifC02FUSE(t *testing.T) {
 		}
 		var outcome []string
 		vh.CheckpointKey("C02", "C02/fuse-crash", map[string]any{"history": names})
+		// (real-time watchdog: a history normally takes milliseconds; a reader that
+		// spins keeps the bubble from ever becoming quiescent)
+		stopGuard := vh.Guard("C02", "C02/fuse-does-not-terminate", map[string]any{"history": names}, 120*time.Second)
+		defer stopGuard()
 		synctest.Test(t, func(t *testing.T) {
 			peer.VerifReset()
 			config.SetDefaultProxy("")
